@@ -113,14 +113,24 @@ func oracle(r *e2elife.PickRig, final bool) string {
 			}
 		}
 		// answers that queue the RPC
-		definitelyQueues := lp.Res.Kind == "nosc" || lp.Res.Kind == "notready" || (lp.Res.Kind == "err" && rec.Plan.WaitForReady) ||
-			(lp.Res.Kind == "ready" && lp.Stable && !lp.AddrReady)
-		if definitelyQueues {
+		// ... until a newer picker is published: whatever connectivity state that
+		// publish reports (also the same as before) and whether or not the picker
+		// object is new, the queued RPC is evaluated against it - at quiescence its
+		// last Pick call was made on the latest publish
+		if lp.DefinitelyQueues(rec.Plan.WaitForReady) {
 			if rec.Finished && !rec.Cancelled {
 				return fmt.Sprintf("rpc %s: pick #%d (generation %d) was answered %q (SubConn ready=%v) and the RPC failed with (%v,%q) instead of waiting for a newer picker", rec.ID, lp.Idx, lp.Gen, lp.Res.Kind, lp.AddrReady, code, msg)
 			}
 			if !rec.Finished && lp.Gen != curGen {
-				return fmt.Sprintf("rpc %s is queued after pick #%d on generation %d although generation %d has been published", rec.ID, lp.Idx, lp.Gen, curGen)
+				na := r.NextAnswer(rec)
+				what := "would queue it again"
+				switch {
+				case na.Kind == "ready":
+					what = fmt.Sprintf("would send it on the SubConn of b%d", na.Addr%r.Plan.Backends)
+				case !na.WouldQueue(rec.Plan.WaitForReady):
+					what = "would end it"
+				}
+				return fmt.Sprintf("rpc %s is queued after pick #%d on generation %d although %s has been published: the RPC was not evaluated against the latest picker (its answer %q %s)", rec.ID, lp.Idx, lp.Gen, r.DescribePub(curGen), na.Kind, what)
 			}
 		}
 		// a READY answer must start the attempt
@@ -163,6 +173,9 @@ func classify(r *e2elife.PickRig) (bool, []string) {
 		cl["final_"+code.String()] = true
 	}
 	r.Unlock()
+	for _, c := range r.PublishClasses() {
+		cl[c] = true
+	}
 	var out []string
 	for c := range cl {
 		out = append(out, c)
